@@ -339,6 +339,9 @@ CHECKS = {
         "runs": [
             {"harness": "HarnessC14Serve", "grid": {"enccfg": [0, 1, 2, 3], "transport": [0, 1, 2]}, "params": {"depth": 4},
              "reach": ["c14:serve-returned", "c14:never-established"], "tier": "quick"},
+            {"harness": "HarnessC14TCP", "grid": {"fault": [0, 1, 2, 3]}, "reach": ["c14:tcp-serve-returned"]},
+            {"harness": "HarnessC14Serve", "grid": {"transport": [0, 2]}, "params": {"enccfg": 2, "depth": 3, "dropnotice": 1},
+             "reach": ["c14:serve-returned", "c14:never-established"]},
             {"harness": "HarnessC14Serve", "grid": {"enccfg": [0, 1, 2, 3], "transport": [0, 1, 2], "sendfails": [0, 1]}, "params": {"depth": 5},
              "reach": ["c14:serve-returned"], "tier": "thorough"},
         ],
